@@ -52,14 +52,18 @@ CHECKS.append(_check("C09", "gibbs", "exploration",
            "DESIGN.md 3.4"))
 
 CHECKS.append(_check("C05", "streams", "exploration",
-           "RANDOM-STREAM, WRAPPING AND REFUSAL CLAUSES ONLY. Two simulated clients share the process: A draws with its own "
+           "RANDOM-STREAM, WRAPPING AND REFUSAL CLAUSES, PLUS A PER-DRAW MECHANISM IDENTITY FOR GAUSSIAN-TYPE FAMILIES. Two simulated clients share the process: A draws with its own "
            "generator (Distribution.sample(N, rng=g) over 21 family/parameterisation recipes; legacy ULA/MALA/UGLA(rng=g)), B "
            "consumes the global stream (sampling without rng, experimental MH steps). The scheduler interleaves them; each "
            "client's outputs must equal its solo run from the same initial stream state, an A-op must leave the global state and "
            "a B-op the generator untouched (state digests), repeating an A-op from a restored generator state repeats the output, "
            "N=1 gives a geometry-carrying array and N>1 a one-column-per-draw collection, and conditional distributions refuse to "
-           "sample without consuming randomness. The distributional clause (draws follow the object's own density) is NOT decided: "
-           "a law cannot be observed in one replayable run.",
+           "sample without consuming randomness. Histories that re-assign a parameter (value or callable) must leave the object "
+           "indistinguishable from a freshly constructed twin (draws under the same generator state, log-density, refusal). For "
+           "Gaussian, zero-boundary GMRF and Lognormal draws the simulator owns the standard-normal block e and checks the identity "
+           "2(logd(mean)-logd(draw)) = e'e, i.e. the draw is mean + L e with L a square root of the covariance the object's own "
+           "log-density reports (dense/sparse, all four parameterisations, triangular and full roots, both sides of the sparse "
+           "switch). For all other families the distributional clause is NOT decided: a law cannot be observed in one replayable run.",
            "Trusted: numpy RandomState state capture. The first sentence of C05 is outside this technique (DESIGN.md 3.6).",
            "deterministic simulation: interleaving of two random-stream clients, solo-run equivalence and stream-state digests",
            "DESIGN.md 3.6"))
